@@ -235,6 +235,15 @@ class FmtInterp(Interp):
 
     def e_mcall(self, e):
         m = e["m"]
+        if m == "encode_write" and e["r"].get("k") == "path" and e["r"]["p"].split("::")[-1] in ("HEXLOWER", "HEXUPPER") and len(e["a"]) == 2:
+            # data_encoding::HEXLOWER.encode_write(bytes, f): base16 of the bytes, appended to the writer
+            data = S(self.eval(e["a"][0]))
+            out = self.eval(e["a"][1])
+            if data is None or not isinstance(out, PyStr):
+                raise Unknown("encode_write of %r" % (e["a"][0].get("s"),))
+            h = data.encode().hex()
+            out.s += h if e["r"]["p"].endswith("HEXLOWER") else h.upper()
+            return ("Ok", ("tuple", []))
         recv = self.eval(e["r"])
         s = S(recv)
         args = None
